@@ -97,6 +97,10 @@ func init() {
 		},
 		"vfBegin": func(s *State, fr *Frame, fn *ssa.Function, a []Value, d ssa.Value) (Value, bool) {
 			s.begun = true
+			if dest := d; dest != nil {
+				fr.locals[dest] = nil
+			}
+			s.ex.saveSnapshot(s)
 			return nil, false
 		},
 		"vfGhost": func(s *State, fr *Frame, fn *ssa.Function, a []Value, d ssa.Value) (Value, bool) {
@@ -283,6 +287,28 @@ func init() {
 			}
 			walk(a[0])
 			return nil, false
+		},
+		"vfTime": func(s *State, fr *Frame, fn *ssa.Function, a []Value, d ssa.Value) (Value, bool) {
+			// an arbitrary wall-clock instant (same encoding and range as the time.Now stub, unordered)
+			name := strArg(a[0])
+			sec := s.named(name+".sec", 64)
+			nsec := s.named(name+".nsec", 64)
+			s.assume(Ult(nsec, Const(64, 1000000000)))
+			s.assume(Ule(Const(64, unixToInternal), sec))
+			s.assume(Ult(sec, Const(64, unixToInternal+(1<<34))))
+			return Struct{[]Value{nsec, sec, s.timeLocal()}}, false
+		},
+		"vfTimeOrZero": func(s *State, fr *Frame, fn *ssa.Function, a []Value, d ssa.Value) (Value, bool) {
+			// either the zero time.Time (no expiry) or an arbitrary wall-clock instant, without forking
+			name := strArg(a[0])
+			z := s.named(name+".zero", 0)
+			sec := s.named(name+".sec", 64)
+			nsec := s.named(name+".nsec", 64)
+			s.assume(Ult(nsec, Const(64, 1000000000)))
+			s.assume(Ule(Const(64, unixToInternal), sec))
+			s.assume(Ult(sec, Const(64, unixToInternal+(1<<34))))
+			zero := Const(64, 0)
+			return Struct{[]Value{Ite(z, zero, nsec), Ite(z, zero, sec), s.timeLocal()}}, false
 		},
 		"vfPreempts": func(s *State, fr *Frame, fn *ssa.Function, a []Value, d ssa.Value) (Value, bool) {
 			return Const(64, uint64(s.preempts)), false
